@@ -22,6 +22,18 @@ if _WS:
     for d in (vlib.REPLAYS, vlib.EVIDENCE):
         os.makedirs(d, exist_ok=True)
 
+# the binary the helper functions below run: the all-features build, or the build against specs without `parallel`
+ACTIVE = [None]
+
+
+def hb():
+    return ACTIVE[0] or vlib.hbin(BIN)
+
+
+def bin_of(label):
+    return vlib.hbin_np("h_conc_np") if label.startswith("np/") else vlib.hbin(BIN)
+
+
 NHIST = 4
 BIG_2x2 = 7       # [create create || create create]: ~1.8e5 schedules per history
 BIG_3x1 = 2       # [create || create || create]:     ~7.6e5 schedules per history
@@ -37,6 +49,14 @@ def plan(tier, seed):
         runs.append((f"exh2x1/h{h}", ["exh", "2", "1", str(h)]))
         for ps in range(BIG_2x2):
             runs.append((f"exh2x2/h{h}/p{ps}", ["exh", "2", "2", str(h), str(ps)]))
+    # the same program sets on the build without `parallel` (threads share `&EntitiesRes` only; no lazy calls)
+    for h in range(NHIST):
+        runs.append((f"np/exh2x1/h{h}", ["exh", "2", "1", str(h)]))
+    for ps in range(BIG_2x2 if tier != "quick" else 3):
+        runs.append((f"np/exh2x2/h1/p{ps}", ["exh", "2", "2", "1", str(ps)]))
+    for i in range(2 if tier == "quick" else 12):
+        runs.append((f"np/gen{i}", ["gen", str(seed * 1000 + 700 + i), "500" if tier == "quick" else "2500", "6", "8"]))
+    runs.append(("np/stress8", ["stress", str(seed * 100 + 77), "8", "3000" if tier == "quick" else "10000"]))
     if tier == "quick":
         for i in range(4):
             runs.append((f"gen{i}", ["gen", str(seed * 1000 + i), "500", "6", "8"]))
@@ -69,7 +89,7 @@ def plan(tier, seed):
 
 def run_one(args, keep=None):
     label, tail = args
-    lines, hrc, err = vlib.pipe_to_driver([vlib.hbin(BIN)] + tail, timeout=3000, keep=keep)
+    lines, hrc, err = vlib.pipe_to_driver([bin_of(label)] + tail, timeout=3000, keep=keep)
     r = vlib.parse_driver(lines)
     r["label"], r["tail"], r["hrc"], r["err"] = label, tail, hrc, err
     return r
@@ -139,7 +159,7 @@ def run_case(case, timeout=120):
     path = os.path.join(vlib.TMP, f"conc-{os.getpid()}-{time.time_ns()}.case")
     with open(path, "w") as f:
         f.write("case s\n" + "\n".join(case_lines(case)) + "\n")
-    lines, hrc, err = vlib.pipe_to_driver([vlib.hbin(BIN), "run", path], timeout=timeout)
+    lines, hrc, err = vlib.pipe_to_driver([hb(), "run", path], timeout=timeout)
     os.unlink(path)
     r = vlib.parse_driver(lines)
     r["hrc"] = hrc
@@ -194,13 +214,16 @@ def search_from(case, seed, n=300):
             c["sched"] = [rnd.randrange(nthreads) for _ in range(rnd.randrange(steps + 1))]
             cands.append(c)
             f.write(f"case c{i}\n" + "\n".join(case_lines(c)) + "\n")
-    lines, hrc, err = vlib.pipe_to_driver([vlib.hbin(BIN), "run", path], timeout=300)
+    lines, hrc, err = vlib.pipe_to_driver([hb(), "run", path], timeout=300)
     os.unlink(path)
     r = vlib.parse_driver(lines)
     if r["mon"]:
         cid = vlib.field(r["mon"][0], "case")
         return cands[int(cid[1:])], r["mon"][0]
     return None
+
+
+NP_NOTE = [""]
 
 
 def report_failures(prop, tier, seed, results):
@@ -210,6 +233,9 @@ def report_failures(prop, tier, seed, results):
         crashed = r["hrc"] not in (0, 3) or r["bad"]
         if not (r["mon"] or r["diff"] or r["hang"] or crashed):
             continue
+        ACTIVE[0] = bin_of(r["label"])
+        NP_NOTE[0] = ("build: np  (harness/np: specs built WITHOUT its default `parallel` feature; replay uses that build)"
+                      if r["label"].startswith("np/") else "build: all features")
         keep = os.path.join(vlib.TMP, f"conc-tr-{os.getpid()}-{time.time_ns()}.txt")
         if r["hang"]:
             # a call did not terminate (CAS loop spinning, thread never reaching a yield point):
@@ -219,7 +245,7 @@ def report_failures(prop, tier, seed, results):
             os.unlink(keep)
             case = parse_case_block(block)
             path = vlib.write_replay(prop, f"hang-{seed}-{len(seen)}",
-                                     [f"property {prop}: {PROP_WHAT}", "a call did not terminate under this schedule (per-case timeout)",
+                                     [NP_NOTE[0], f"property {prop}: {PROP_WHAT}", "a call did not terminate under this schedule (per-case timeout)",
                                       f"found by: h_conc {' '.join(r['tail'])}", f"replay: bin/check {prop} --replay <this file>"],
                                      case_lines(case), "conc")
             print(f"VIOLATION property={prop} replay={path}")
@@ -230,7 +256,7 @@ def report_failures(prop, tier, seed, results):
             cid = vlib.field(first, "case")
             if cid.startswith("s"):     # stress run: no schedule to replay; the seed is the replay
                 path = vlib.write_replay(prop, f"stress-{seed}-{len(seen)}",
-                                         [f"property {prop}: {PROP_WHAT}", f"uncontrolled run on real threads failed: {first}",
+                                         [NP_NOTE[0], f"property {prop}: {PROP_WHAT}", f"uncontrolled run on real threads failed: {first}",
                                           f"re-run: build/harness-target/debug/h_conc {' '.join(r['tail'])} (real preemption: may need repeating)"])
                 print(f"VIOLATION property={prop} replay={path} no-failing-input-found")
                 violations += 1
@@ -247,7 +273,7 @@ def report_failures(prop, tier, seed, results):
                 rr = run_case(small)
                 verdict = (rr["mon"] or [first])[0]
                 path = vlib.write_replay(prop, f"{seed}-{len(seen)}",
-                                         [f"property {prop}: {PROP_WHAT}",
+                                         [NP_NOTE[0], f"property {prop}: {PROP_WHAT}",
                                           f"monitor verdict on the implementation's transcript: {verdict}",
                                           f"found by: h_conc {' '.join(r['tail'])} (case {cid}); schedule, programs and history minimised by ddmin",
                                           f"replay: bin/check {prop} --replay <this file>"], case_lines(small), "conc")
@@ -258,12 +284,12 @@ def report_failures(prop, tier, seed, results):
                     fc, m = found
                     fc = shrink(fc, "mon")
                     path = vlib.write_replay(prop, f"{seed}-{len(seen)}",
-                                             [f"property {prop}: {PROP_WHAT}", f"correspondence broke: {first}",
+                                             [NP_NOTE[0], f"property {prop}: {PROP_WHAT}", f"correspondence broke: {first}",
                                               f"directed search (other schedules of the same programs) found: {m}"], case_lines(fc), "conc")
                     print(f"VIOLATION property={prop} replay={path}")
                 else:
                     path = vlib.write_replay(prop, f"corr-{seed}-{len(seen)}",
-                                             [f"property {prop}: {PROP_WHAT}",
+                                             [NP_NOTE[0], f"property {prop}: {PROP_WHAT}",
                                               "the implementation left the Lean small-step model (SpecsModel.Conc.Model vs h_conc) under this schedule;",
                                               "the theorems of SpecsModel.Props.C10 therefore no longer speak about this code.",
                                               f"first divergence: {first}",
@@ -273,7 +299,7 @@ def report_failures(prop, tier, seed, results):
             violations += 1
         else:
             path = vlib.write_replay(prop, f"crash-{seed}-{len(seen)}",
-                                     [f"harness run {r['label']} did not complete: rc={r['hrc']} {r['bad'][:2]}", r["err"]])
+                                     [NP_NOTE[0], f"harness run {r['label']} did not complete: rc={r['hrc']} {r['bad'][:2]}", r["err"]])
             print(f"VIOLATION property={prop} replay={path} no-failing-input-found")
             violations += 1
         if violations >= 3:
@@ -293,6 +319,8 @@ def check(prop, tier, seed, t0):
         print(f"VIOLATION property={prop} replay={path} no-failing-input-found")
         violations += 1
     ok, blog = vlib.build_harness([BIN])
+    if ok:
+        ok, blog = vlib.build_harness_np()
     results = []
     if not ok:
         path = vlib.write_replay(prop, "build", ["the harness does not build against /repo's working tree (is hook H1 — hooks/H1_yield_points.patch — applied?), "
@@ -365,7 +393,12 @@ def replay(prop, path):
     ok, blog = vlib.build_harness([BIN])
     if not ok:
         print(blog); return 2
-    lines, hrc, err = vlib.pipe_to_driver([vlib.hbin(BIN), "run", path], timeout=120)
+    if "# build: np" in open(path).read():
+        ok, blog = vlib.build_harness_np()
+        if not ok:
+            print(blog); return 2
+        ACTIVE[0] = vlib.hbin_np("h_conc_np")
+    lines, hrc, err = vlib.pipe_to_driver([hb(), "run", path], timeout=120)
     for l in lines:
         print(l)
     r = vlib.parse_driver(lines)
